@@ -34,6 +34,9 @@ def get_annotation_typestr(field: Union[BaseField, Type, str]) -> str:
         storage_type = field
     elif field is None:
         storage_type = "None"
+    elif type(field).__module__ in ("typing", "types"):
+        # typing constructs (Optional[int], List[str], list[int], int | None)
+        storage_type = field
     else:
         raise TypeError("Unknown storage_type: %s" % type(field))
 
